@@ -1998,9 +1998,47 @@ func ruleFillBytes(c *Ctx, r *Rep) {
 			call := ci.(*ssa.Call)
 			okCmp := false
 			for _, ref := range *call.Referrers() {
-				if bin, ok := ref.(*ssa.BinOp); ok && bin.Op == token.GEQ {
-					if k, ok := bin.Y.(*ssa.Const); ok && k.Int64() == 0 {
-						okCmp = true
+				bin, ok := ref.(*ssa.BinOp)
+				if !ok {
+					continue
+				}
+				k, isK := bin.Y.(*ssa.Const)
+				if !isK || k.Value == nil {
+					continue
+				}
+				// the comparison in any spelling (>= 0, > -1, < 0, == -1 negated …): decided by its value at -1, 0 and 1
+				at := func(v int64) (bool, bool) {
+					return cmpUnder(c, bin, map[ssa.Value]int64{ssa.Value(call): v})
+				}
+				lo, ok1 := at(-1)
+				eq, ok2 := at(0)
+				hi, ok3 := at(1)
+				if !ok1 || !ok2 || !ok3 {
+					continue
+				}
+				var outOfRangeOnTrue bool
+				switch {
+				case !lo && eq && hi:
+					outOfRangeOnTrue = true // cmp >= 0
+				case lo && !eq && !hi:
+					outOfRangeOnTrue = false // cmp < 0
+				default:
+					continue
+				}
+				// the side on which the scalar is out of range leads straight to an error
+				for _, r2 := range *bin.Referrers() {
+					iff, isIf := r2.(*ssa.If)
+					if !isIf {
+						continue
+					}
+					idx := 1
+					if outOfRangeOnTrue {
+						idx = 0
+					}
+					if ret := exitAfter(iff.Block().Succs[idx]); ret != nil && returnsNonNilError(ret) {
+						if other := exitAfter(iff.Block().Succs[1-idx]); other == nil || !returnsNonNilError(other) {
+							okCmp = true
+						}
 					}
 				}
 			}
